@@ -324,7 +324,7 @@ func (r *rig) actors() []gx.Actor {
 		}
 		acts = append(acts, do("reset", cur))
 	}
-	if !p.Auto && !r.commitRunning {
+	if !p.Auto && !r.commitRunning && (r.c.HaltAfterPrefix || r.c.Trailing("commit") < 1) {
 		acts = append(acts, gx.Actor{Label: "commit", Rank: 2, Variants: []gx.Variant{{Do: func() {
 			r.mu.Lock()
 			r.commitRunning = true
